@@ -201,3 +201,63 @@ func unhx(s string) []byte {
 	}
 	return b
 }
+
+// LoadKnown reads the committed known-findings file (never written at run time) and returns the signatures listed
+// as "known:" for a property.  "fixed:" lines suppress nothing and are ignored here.
+func LoadKnown(prop string) map[string]bool {
+	out := map[string]bool{}
+	path := os.Getenv("VERIF_KNOWN")
+	if path == "" {
+		path = "/verif/KNOWN_FINDINGS.txt"
+	}
+	b, err := os.ReadFile(path)
+	if err != nil {
+		return out
+	}
+	for _, line := range splitLines(string(b)) {
+		f := fields(line)
+		if len(f) < 3 || f[0] != "known:" {
+			continue
+		}
+		if f[1] == "property="+prop && len(f[2]) > 4 && f[2][:4] == "key=" {
+			out[f[2][4:]] = true
+		}
+	}
+	return out
+}
+
+func splitLines(s string) []string {
+	var out []string
+	cur := ""
+	for _, r := range s {
+		if r == '\n' {
+			out = append(out, cur)
+			cur = ""
+		} else {
+			cur += string(r)
+		}
+	}
+	return append(out, cur)
+}
+
+func fields(s string) []string {
+	var out []string
+	cur := ""
+	for _, r := range s {
+		if r == ' ' || r == '\t' {
+			if cur != "" {
+				out = append(out, cur)
+				cur = ""
+			}
+		} else {
+			cur += string(r)
+		}
+	}
+	if cur != "" {
+		out = append(out, cur)
+	}
+	return out
+}
+
+// KnownHit records that a listed known finding was met (reported by the driver as KNOWN-FINDING, exit 0).
+func (s *Stats) KnownHit(sig string) { s.mu.Lock(); s.Known[sig]++; s.mu.Unlock() }
